@@ -282,7 +282,7 @@ def shard(ctx):
                 if va != vb:
                     ctx.violation("tag:ambiguous-scalar-payload:loaders-disagree", "`%s` is loaded as %s by validate and as %s by the test/library loader" % (short.strip(), va[-1], vb[-1]),
                                   {"kind": "tag2", "short": short})
-        payload_seq = ["[a, b]", "['-', [x, y]]", "[1, two]"]
+        payload_seq = ["[a, b]", "['-', [x, y]]", "[1, two]", "[]", "[[]]", "[{}]"]
         for tag, long in TAGS.items():
             for kind, payloads in (("scalar", payload_scalar), ("sequence", payload_seq)):
                 for pl in payloads:
